@@ -88,7 +88,7 @@ Fixpoint ty_distinct (t : ty) : bool :=
 
 (* [ok t p v]: the part of the type that the value [v] actually exercises lies
    in the decoder's language, and [v] is canonical.
-   - context tags IMPLICIT (or none) and below 2^63; no open types; no OBJECT
+   - context tags below 2^63, IMPLICIT or EXPLICIT; no open types; no OBJECT
      IDENTIFIER; the members of a SEQUENCE, SET or CHOICE start with pairwise
      different identifiers (context tag, or universal identifier of the type for a
      member declared without one) -- or, in a SEQUENCE, every member present differs
@@ -100,7 +100,7 @@ Fixpoint ty_distinct (t : ty) : bool :=
    are not constrained: e.g. a ChargingRecord without RecordExtensions is [ok]
    although ManagementExtension contains an untagged OBJECT IDENTIFIER. *)
 Fixpoint ok (t : ty) (p : fparams) (v : value) {struct t} : bool :=
-  tag_ok p && noexp p &&
+  tag_ok p &&
   match t with
   | TBool | TNull => match v with VBool _ => true | _ => false end
   | TInt | TEnum => match v with VInt z => int64_ok z | _ => false end
@@ -323,19 +323,19 @@ Ltac prim_tag_side :=
 Definition rt_ok (t : ty) : Prop :=
   forall p v bs, ok t p v = true -> enc t p v = Ok bs -> zlen bs < 2 ^ 32 ->
     dec t p bs = Ok (canon t false v) /\ shaped p bs.
+(* ... for parameters without EXPLICIT tagging; [lift] (below) extends it to all parameters *)
+Definition rt_ne (t : ty) : Prop :=
+  forall p v bs, noexp p = true -> ok t p v = true -> enc t p v = Ok bs -> zlen bs < 2 ^ 32 ->
+    dec t p bs = Ok (canon t false v) /\ shaped p bs.
 
-Lemma ok_split t p v : ok t p v = true ->
-  tag_ok p = true /\ noexp p = true /\
-  (ok t p v = true -> True).
+Lemma ok_split t p v : ok t p v = true -> tag_ok p = true.
 Proof.
-  intros H. destruct t; cbn [ok] in H; apply andb_true_iff in H; destruct H as [H _];
-    apply andb_true_iff in H; destruct H as [H1 H2]; repeat split; assumption.
+  intros H. destruct t; cbn [ok] in H; apply andb_true_iff in H; destruct H as [H _]; exact H.
 Qed.
 
 (* strip the common prefix of [ok] *)
-Ltac ok_open Hok Ht Hn :=
-  let H := fresh in
-  pose proof (ok_split _ _ _ Hok) as [Ht [Hn _]];
+Ltac ok_open Hok Ht :=
+  pose proof (ok_split _ _ _ Hok) as Ht;
   cbn [ok] in Hok; apply andb_true_iff in Hok; destruct Hok as [_ Hok].
 
 (* open the decoder on [finish p 0 k T content] for a primitive type *)
@@ -357,9 +357,9 @@ Ltac open_prim Hn Ht Hs :=
     | rewrite <- finish_hdr_of by exact Hn; apply finish_shaped; try assumption; lia ]
   end.
 
-Lemma rt_bool : rt_ok TBool.
+Lemma rt_bool : rt_ne TBool.
 Proof.
-  intros p v bs Hok He Hs. ok_open Hok Ht Hn.
+  intros p v bs Hn Hok He Hs. ok_open Hok Ht.
   rewrite enc_unfold in He. cbn [enc_step] in He. destruct v; try discriminate.
   inversion He; subst bs; clear He. open_prim Hn Ht Hs.
   set (H := hdr_of p 0 false 1 (zlen [if b then 255 else 0])).
@@ -370,48 +370,48 @@ Proof.
   destruct b; reflexivity.
 Qed.
 
-Lemma rt_int : rt_ok TInt.
+Lemma rt_int : rt_ne TInt.
 Proof.
-  intros p v bs Hok He Hs. ok_open Hok Ht Hn.
+  intros p v bs Hn Hok He Hs. ok_open Hok Ht.
   rewrite enc_unfold in He. cbn [enc_step] in He. destruct v; try discriminate.
   inversion He; subst bs; clear He. open_prim Hn Ht Hs.
   rewrite parse_signed_int_bytes by (apply int64_ok_range, Hok). reflexivity.
 Qed.
 
-Lemma rt_enum : rt_ok TEnum.
+Lemma rt_enum : rt_ne TEnum.
 Proof.
-  intros p v bs Hok He Hs. ok_open Hok Ht Hn.
+  intros p v bs Hn Hok He Hs. ok_open Hok Ht.
   rewrite enc_unfold in He. cbn [enc_step] in He. destruct v; try discriminate.
   inversion He; subst bs; clear He. open_prim Hn Ht Hs.
   rewrite parse_signed_int_bytes by (apply int64_ok_range, Hok). reflexivity.
 Qed.
 
-Lemma rt_octets : rt_ok TOctets.
+Lemma rt_octets : rt_ne TOctets.
 Proof.
-  intros p v bs Hok He Hs. ok_open Hok Ht Hn.
+  intros p v bs Hn Hok He Hs. ok_open Hok Ht.
   rewrite enc_unfold in He. cbn [enc_step] in He.
   destruct v; try discriminate; cbn [bytes_of] in He; inversion He; subst bs; clear He;
     open_prim Hn Ht Hs; reflexivity.
 Qed.
 
-Lemma rt_null : rt_ok TNull.
+Lemma rt_null : rt_ne TNull.
 Proof.
-  intros p v bs Hok He Hs. ok_open Hok Ht Hn.
+  intros p v bs Hn Hok He Hs. ok_open Hok Ht.
   rewrite enc_unfold in He. cbn [enc_step] in He. destruct v; try discriminate.
   inversion He; subst bs; clear He. open_prim Hn Ht Hs. reflexivity.
 Qed.
 
-Lemma rt_string k : rt_ok (TString k).
+Lemma rt_string k : rt_ne (TString k).
 Proof.
-  intros p v bs Hok He Hs. ok_open Hok Ht Hn.
+  intros p v bs Hn Hok He Hs. ok_open Hok Ht.
   rewrite enc_unfold in He. cbn [enc_step] in He. destruct v; try discriminate.
   apply andb_true_iff in Hok. destruct Hok as [_ Hu].
   inversion He; subst bs; clear He. open_prim Hn Ht Hs. reflexivity.
 Qed.
 
-Lemma rt_bits : rt_ok TBits.
+Lemma rt_bits : rt_ne TBits.
 Proof.
-  intros p v bs Hok He Hs. ok_open Hok Ht Hn.
+  intros p v bs Hn Hok He Hs. ok_open Hok Ht.
   rewrite enc_unfold in He. cbn [enc_step] in He. destruct v as [| | |l n| | | |]; try discriminate.
   inversion He; subst bs; clear He.
   apply andb_true_iff in Hok. destruct Hok as [Hv Hlen]. apply andb_true_iff in Hv. destruct Hv as [Hb Hn0].
@@ -447,15 +447,15 @@ Qed.
 
 Lemma rt_ptr t : rt_ok t -> rt_ok (TPtr t).
 Proof.
-  intros IH p v bs Hok He Hs. ok_open Hok Ht Hn.
+  intros IH p v bs Hok He Hs. ok_open Hok Ht.
   rewrite enc_unfold in He. cbn [enc_step] in He. destruct v; try discriminate.
   destruct (IH p v bs Hok He Hs) as [Hd Hsh].
   split; [|exact Hsh]. rewrite dec_unfold. cbn [dec_step]. rewrite Hd. reflexivity.
 Qed.
 
-Lemma rt_wrap t : rt_ok t -> rt_ok (TWrap t).
+Lemma rt_wrap t : rt_ok t -> rt_ne (TWrap t).
 Proof.
-  intros IH p v bs Hok He Hs. ok_open Hok Ht Hn.
+  intros IH p v bs Hn Hok He Hs. ok_open Hok Ht.
   rewrite enc_unfold in He. cbn [enc_step] in He.
   destruct v as [| | | | | |[|v0 [|? ?]]|]; try discriminate.
   destruct (IH p v0 bs Hok He Hs) as [Hd Hsh].
@@ -535,9 +535,9 @@ Qed.
 Lemma seq_tag_range p : 0 <= seq_tag p < 2 ^ 63.
 Proof. unfold seq_tag. destruct (p_set p); lia. Qed.
 
-Lemma rt_slice t : rt_ok t -> rt_ok (TSlice t).
+Lemma rt_slice t : rt_ok t -> rt_ne (TSlice t).
 Proof.
-  intros IH p v bs Hok He Hs. ok_open Hok Ht Hn.
+  intros IH p v bs Hn Hok He Hs. ok_open Hok Ht.
   rewrite enc_unfold in He. cbn [enc_step] in He.
   assert (exists vs, (match v with VSlice vs => Some vs | VNil => Some [] | _ => None end) = Some vs /\
             (fix go (ws : list value) : bool :=
@@ -753,9 +753,9 @@ Proof.
   intros n Hq. apply H4. rewrite E. exact Hq.
 Qed.
 
-Lemma rt_choice l : Forall (fun a => rt_ok (snd a)) l -> rt_ok (TChoice l).
+Lemma rt_choice l : Forall (fun a => rt_ok (snd a)) l -> rt_ne (TChoice l).
 Proof.
-  intros IH p v bs Hok He Hs. ok_open Hok Ht Hn.
+  intros IH p v bs Hn Hok He Hs. ok_open Hok Ht.
   rewrite enc_unfold in He. cbn [enc_step] in He.
   destruct v as [| | | | | |[|[| pr | | | | | |] vs]|]; try discriminate.
   apply andb_true_iff in Hok. destruct Hok as [Hok Hv].
@@ -1035,9 +1035,9 @@ Section SeqRT.
   Qed.
 End SeqRT.
 
-Lemma rt_seq l : Forall (fun a => rt_ok (snd a)) l -> rt_ok (TSeq l).
+Lemma rt_seq l : Forall (fun a => rt_ok (snd a)) l -> rt_ne (TSeq l).
 Proof.
-  intros IH p v bs Hok He Hs. ok_open Hok Ht Hn.
+  intros IH p v bs Hn Hok He Hs. ok_open Hok Ht.
   rewrite enc_unfold in He. cbn [enc_step] in He.
   destruct v as [| | | | | |vs|]; try discriminate.
   apply andb_true_iff in Hok. destruct Hok as [Hok Hv].
@@ -1068,22 +1068,200 @@ Proof.
   rewrite app_length. unfold zlen. lia.
 Qed.
 
+(* ---- EXPLICIT tagging: a constructed context-tagged wrapper around the untagged encoding ---- *)
+
+Definition strip (p : fparams) : fparams := no_explicit (clear_tag p).
+
+(* without a tag the EXPLICIT flag is immaterial (it survives in the parameters handed to the
+   elements of a SEQUENCE OF) *)
+Lemma untagged_irrelevant : forall t p v, p_tag p = None ->
+  enc t p v = enc t (no_explicit p) v /\ ok t p v = ok t (no_explicit p) v.
+Proof.
+  induction t using ty_ind'; intros p v Hp;
+    try (rewrite !enc_unfold; cbn [enc_step ok]; unfold finish, tag_ok, seq_tag;
+         cbn [no_explicit p_tag p_strtype p_set p_open]; rewrite ?Hp; split; reflexivity).
+  - (* pointer *)
+    rewrite !enc_unfold. cbn [enc_step ok]. unfold tag_ok. cbn [no_explicit p_tag]. rewrite Hp.
+    destruct v; try (split; reflexivity). destruct (IHt p v Hp) as [E O]. split; assumption.
+  - (* wrapper *)
+    rewrite !enc_unfold. cbn [enc_step ok]. unfold tag_ok. cbn [no_explicit p_tag]. rewrite Hp.
+    destruct v as [| | | | | |[|v0 [|? ?]]|]; try (split; reflexivity).
+    + destruct (IHt p v0 Hp) as [E O]. split; [exact E | exact O].
+    + destruct (IHt p v0 Hp) as [E O]. split; [exact E | reflexivity].
+  - (* SEQUENCE OF: the elements are handed [clear_tag p] *)
+    assert (HE : forall vs, enc_slice_go enc t p vs = enc_slice_go enc t (no_explicit p) vs).
+    { induction vs as [|w vs IHvs]; [reflexivity|]. cbn [enc_slice_go].
+      destruct (IHt (clear_tag p) w eq_refl) as [E _].
+      change (clear_tag (no_explicit p)) with (no_explicit (clear_tag p)). rewrite <- E, IHvs. reflexivity. }
+    assert (HO : forall vs,
+              (fix go (ws : list value) : bool :=
+                 match ws with [] => true | w :: r => ok t (clear_tag p) w && go r end) vs =
+              (fix go (ws : list value) : bool :=
+                 match ws with [] => true | w :: r => ok t (clear_tag (no_explicit p)) w && go r end) vs).
+    { induction vs as [|w vs IHvs]; [reflexivity|].
+      destruct (IHt (clear_tag p) w eq_refl) as [_ O].
+      change (clear_tag (no_explicit p)) with (no_explicit (clear_tag p)). rewrite <- O, IHvs. reflexivity. }
+    rewrite !enc_unfold. cbn [enc_step ok]. unfold finish, tag_ok, seq_tag.
+    cbn [no_explicit p_tag p_set]. rewrite Hp.
+    split.
+    + destruct v; try reflexivity; rewrite HE; reflexivity.
+    + destruct v; try reflexivity. rewrite HO. reflexivity.
+Qed.
+
+Definition not_ptr (t : ty) : Prop := match t with TPtr _ => False | _ => True end.
+
+(* without a tag the decoder goes straight to the type-specific part *)
+Lemma dec_untagged_body t q bs : p_tag q = None -> not_ptr t -> dec t q bs = dec_body dec t q bs.
+Proof.
+  intros Hq Hnp. rewrite dec_unfold.
+  destruct t; try contradiction; cbn [dec_step]; rewrite Hq; cbn [andb]; unfold dec_body;
+    destruct (parse_tl bs) as [[tl0 toff]| | |]; cbn [bind]; try reflexivity;
+    destruct (toff + t_len tl0 >? zlen bs); reflexivity.
+Qed.
+
+(* the encoder wraps the untagged encoding *)
+Lemma enc_explicit : forall t p n v bs,
+  p_tag p = Some n -> p_explicit p = true -> enc t p v = Ok bs ->
+  exists inner, enc t (strip p) v = Ok inner /\ bs = hdr 2 true n (zlen inner) ++ inner.
+Proof.
+  induction t using ty_ind'; intros p n v bs Ht Hx He;
+    try (rewrite enc_unfold in He |- *; cbn [enc_step] in He |- *;
+         destruct v; try discriminate He; cbn [bytes_of] in He |- *;
+         inversion He; unfold finish; cbn [strip no_explicit clear_tag p_tag p_strtype p_explicit];
+         rewrite Ht, Hx; eexists; split; reflexivity).
+  - (* pointer *)
+    rewrite enc_unfold in He |- *. cbn [enc_step] in He |- *. destruct v; try discriminate He.
+    exact (IHt p n v bs Ht Hx He).
+  - (* wrapper *)
+    rewrite enc_unfold in He |- *. cbn [enc_step] in He |- *.
+    destruct v as [| | | | | |[|v0 ?]|]; try discriminate He. exact (IHt p n v0 bs Ht Hx He).
+  - (* CHOICE: the wrapper of a tagged CHOICE *)
+    rewrite enc_unfold in He |- *. cbn [enc_step] in He |- *.
+    destruct v as [| | | | | |[|[| pr | | | | | |] vs]|]; try discriminate He.
+    destruct (pr <=? 0); [discriminate He|]. destruct (pr >=? 1 + zlen l); [discriminate He|].
+    revert He. generalize (Z.to_nat (pr - 1)) as k. revert vs. clear H.
+    induction l as [|[ap at'] l IHl]; intros vs k He; cbn [enc_pick] in He |- *; [discriminate He|].
+    destruct vs as [|w vs]; [discriminate He|].
+    destruct k as [|k]; [|exact (IHl vs k He)].
+    cbn [strip no_explicit clear_tag p_open p_tag]. destruct (p_open p); [discriminate He|].
+    rewrite Ht in He. destruct (enc at' ap w) as [inner| | |]; cbn [bind] in He; try discriminate He.
+    exists inner. split; [reflexivity|]. inversion He. unfold finish. cbn [no_explicit p_tag p_explicit]. rewrite Ht. reflexivity.
+  - (* SEQUENCE / SET *)
+    rewrite enc_unfold in He |- *. cbn [enc_step] in He |- *. destruct v; try discriminate He.
+    destruct (enc_seq_go enc l fs) as [content| | |]; cbn [bind] in He |- *; try discriminate He.
+    inversion He. unfold finish, seq_tag. cbn [strip no_explicit clear_tag p_tag p_set]. rewrite Ht, Hx.
+    eexists. split; reflexivity.
+  - (* SEQUENCE OF *)
+    assert (HE : forall vs, enc_slice_go enc t p vs = enc_slice_go enc t (strip p) vs).
+    { induction vs as [|w vs IHvs]; [reflexivity|]. cbn [enc_slice_go].
+      destruct (untagged_irrelevant t (clear_tag p) w eq_refl) as [E _].
+      change (clear_tag (strip p)) with (no_explicit (clear_tag p)). rewrite <- E, IHvs. reflexivity. }
+    rewrite enc_unfold in He |- *. cbn [enc_step] in He |- *.
+    destruct v; try discriminate He; rewrite <- HE;
+      match type of He with context [enc_slice_go enc t p ?vs] =>
+        destruct (enc_slice_go enc t p vs) as [content| | |] end; cbn [bind] in He |- *; try discriminate He;
+      inversion He; unfold finish, seq_tag; cbn [strip no_explicit clear_tag p_tag p_set]; rewrite Ht, Hx;
+      eexists; split; reflexivity.
+Qed.
+
+(* the hypotheses carry over to the untagged parameters *)
+Lemma ok_strip : forall t p v, ok t p v = true -> ok t (strip p) v = true.
+Proof.
+  induction t using ty_ind'; intros p v Hok;
+    try (cbn [ok] in Hok |- *; apply andb_true_iff in Hok; destruct Hok as [_ Hok];
+         unfold tag_ok; cbn [strip no_explicit clear_tag p_tag p_strtype p_open p_set andb]; exact Hok).
+  - cbn [ok] in Hok |- *. apply andb_true_iff in Hok. destruct Hok as [_ Hok].
+    unfold tag_ok. cbn [strip no_explicit clear_tag p_tag andb].
+    destruct v; try exact Hok. exact (IHt p v Hok).
+  - cbn [ok] in Hok |- *. apply andb_true_iff in Hok. destruct Hok as [_ Hok].
+    unfold tag_ok. cbn [strip no_explicit clear_tag p_tag andb].
+    destruct v as [| | | | | |[|v0 [|? ?]]|]; try exact Hok. exact (IHt p v0 Hok).
+  - assert (HO : forall vs,
+              (fix go (ws : list value) : bool :=
+                 match ws with [] => true | w :: r => ok t (clear_tag p) w && go r end) vs =
+              (fix go (ws : list value) : bool :=
+                 match ws with [] => true | w :: r => ok t (clear_tag (strip p)) w && go r end) vs).
+    { induction vs as [|w vs IHvs]; [reflexivity|].
+      destruct (untagged_irrelevant t (clear_tag p) w eq_refl) as [_ O].
+      change (clear_tag (strip p)) with (no_explicit (clear_tag p)). rewrite <- O, IHvs. reflexivity. }
+    cbn [ok] in Hok |- *. apply andb_true_iff in Hok. destruct Hok as [_ Hok].
+    replace (tag_ok (strip p)) with true by reflexivity. cbn [andb].
+    destruct v; try exact Hok. rewrite <- HO. exact Hok.
+Qed.
+
+(* the decoder unwraps it *)
+Lemma dec_explicit : forall t p n inner,
+  p_tag p = Some n -> p_explicit p = true -> 0 <= n < 2 ^ 63 -> zlen inner < 2 ^ 32 ->
+  dec t p (hdr 2 true n (zlen inner) ++ inner) = dec t (strip p) inner.
+Proof.
+  intros t p n inner Ht Hx Hn Hl. pose proof (zlen_nonneg inner) as Hi0.
+  set (H := hdr 2 true n (zlen inner)).
+  assert (Hc2 : cls_ok 2) by (unfold cls_ok; lia).
+  assert (Hpar : parse_tl (H ++ inner) = Ok (mkTal 2 true n (zlen inner), zlen H))
+    by (apply parse_hdr; [exact Hc2 | exact Hn | lia]).
+  assert (Hrange : (zlen H + zlen inner >? zlen (H ++ inner)) = false) by (rewrite zlen_app; lia).
+  assert (Hw : wrapper_ok p (mkTal 2 true n (zlen inner)) = true).
+  { unfold wrapper_ok. cbn [t_constr t_cls t_num]. rewrite Ht, !Z.eqb_refl. reflexivity. }
+  induction t using ty_ind';
+    try (match goal with |- _ = dec ?T _ _ => rewrite (dec_untagged_body T (strip p) inner eq_refl I) end;
+         rewrite dec_unfold; cbn [dec_step]; rewrite Hpar; cbn [bind t_len]; rewrite Hrange, Ht, Hx;
+         cbn [andb negb]; rewrite Hw; cbn [negb]; rewrite slice_from_app_len; cbn [bind]; reflexivity).
+  - (* pointer *)
+    rewrite (dec_unfold (TPtr _) p), (dec_unfold (TPtr _) (strip p)). cbn [dec_step]. rewrite IHt. reflexivity.
+  - (* tagged CHOICE: the CHOICE case unwraps *)
+    rewrite (dec_untagged_body (TChoice l) (strip p) inner eq_refl I).
+    rewrite dec_unfold. cbn [dec_step]. rewrite Hpar. cbn [bind t_len]. rewrite Hrange.
+    rewrite andb_false_r. unfold dec_body at 1. rewrite Hpar. cbn [bind t_len]. rewrite Hrange.
+    replace (ident_ok (TChoice l) p (mkTal 2 true n (zlen inner))) with true
+      by (unfold ident_ok, ident_matches; cbn [prim_tag t_constr t_cls t_num]; rewrite Ht;
+          cbn [Bool.eqb]; rewrite !Z.eqb_refl; reflexivity).
+    cbn [negb]. unfold dec_body. cbn [strip no_explicit clear_tag p_open p_tag].
+    rewrite Ht. rewrite slice_from_app_len. cbn [bind].
+    pose proof (parse_tl_spec inner) as Hps.
+    destruct (parse_tl inner) as [[tl2 toff2]| | |]; cbn [tl_post] in Hps; try contradiction; cbn [bind];
+      try (destruct (p_open p); reflexivity).
+    rewrite zlen_app.
+    replace (zlen H + toff2 + t_len tl2 >? zlen H + zlen inner) with (toff2 + t_len tl2 >? zlen inner) by lia.
+    destruct (toff2 + t_len tl2 >? zlen inner); [destruct (p_open p); reflexivity|].
+    replace (ident_ok (TChoice l) (mkP (p_optional p) (p_open p) None false (p_set p) (p_strtype p)) tl2) with true
+      by reflexivity.
+    cbn [negb bind]. rewrite slice_from_app_len. rewrite slice_from_zero. reflexivity.
+Qed.
+
+(* from the parameters without EXPLICIT tagging to all parameters *)
+Lemma lift t : not_ptr t -> rt_ne t -> rt_ok t.
+Proof.
+  intros Hnp R p v bs Hok He Hs.
+  destruct (noexp p) eqn:Hn; [exact (R p v bs Hn Hok He Hs)|].
+  unfold noexp, tagged in Hn. destruct (p_tag p) as [n|] eqn:Ht; [|destruct (p_explicit p); discriminate Hn].
+  destruct (p_explicit p) eqn:Hx; [|discriminate Hn].
+  pose proof (ok_split _ _ _ Hok) as Htag. pose proof (tag_ok_range p n Htag Ht) as Hnr.
+  destruct (enc_explicit t p n v bs Ht Hx He) as [inner [Ei Eb]]. subst bs.
+  assert (Hil : zlen inner < 2 ^ 32).
+  { rewrite zlen_app in Hs. pose proof (zlen_nonneg (hdr 2 true n (zlen inner))). lia. }
+  destruct (R (strip p) v inner eq_refl (ok_strip t p v Hok) Ei Hil) as [Hd _].
+  split.
+  - rewrite (dec_explicit t p n inner Ht Hx Hnr Hil). exact Hd.
+  - exists 2, true, n, inner. split; [reflexivity|]. split; [unfold cls_ok; lia|]. split; [exact Hnr|].
+    intros m Hm. rewrite Ht in Hm. inversion Hm. split; reflexivity.
+Qed.
+
 Theorem roundtrip : forall t, rt_ok t.
 Proof.
   induction t using ty_ind'.
-  - apply rt_bool.
-  - apply rt_int.
-  - apply rt_enum.
-  - apply rt_octets.
-  - apply rt_bits.
-  - apply rt_null.
+  - apply lift; [exact I | apply rt_bool].
+  - apply lift; [exact I | apply rt_int].
+  - apply lift; [exact I | apply rt_enum].
+  - apply lift; [exact I | apply rt_octets].
+  - apply lift; [exact I | apply rt_bits].
+  - apply lift; [exact I | apply rt_null].
   - intros p v bs Hr. cbn [ok] in Hr. rewrite andb_false_r in Hr. discriminate.
-  - apply rt_string.
+  - apply lift; [exact I | apply rt_string].
   - apply rt_ptr, IHt.
-  - apply rt_wrap, IHt.
-  - apply rt_choice, H.
-  - apply rt_seq, H.
-  - apply rt_slice, IHt.
+  - apply lift; [exact I | apply rt_wrap, IHt].
+  - apply lift; [exact I | apply rt_choice, H].
+  - apply lift; [exact I | apply rt_seq, H].
+  - apply lift; [exact I | apply rt_slice, IHt].
   - intros p v bs Hr. cbn [ok] in Hr. rewrite andb_false_r in Hr. discriminate.
 Qed.
 
